@@ -2,7 +2,9 @@ import NdnProofs.Props.C05
 #print axioms Ndn.C05.data_only_if_accepted
 #print axioms Ndn.C05.other_verdict_failure
 #print axioms Ndn.C05.every_verdict_decides
+#print axioms Ndn.C05.resolve_awaited
 #print axioms Ndn.C05.validator_late_timeout
+#print axioms Ndn.C05.tie_data_only_if_accepted
 #print axioms Ndn.C05.interest_digest_gate
 #print axioms Ndn.C05.interest_validated_before_handler_v2
 #print axioms Ndn.C05.interest_validated_before_handler_v1
